@@ -206,7 +206,7 @@ def reset_initial_conditions(
     # Reset soil water conditions (if not running off-season)
     if ClockStruct.sim_off_season is False:
         # Reset water content to starting conditions
-        InitCond.th = InitCond.thini
+        InitCond.th = InitCond.thini.copy()
         # Reset surface storage
         if (FieldMngt.bunds) and (FieldMngt.z_bund > 0.001):
             # Get initial storage between surface bunds
